@@ -524,6 +524,10 @@ func cliDiffC10(quick bool) []cliDiff {
 		for j := 1; j < len(pool); j += step + 1 {
 			ref := pool[i]
 			boots := []string{pool[j], pool[(i+j)%len(pool)], pool[i]}
+			if (i+j)%5 == 0 {
+				// a bootstrap tree on other taxa in the middle of the file: the command fails as the library call does
+				boots = []string{pool[j], "((A:1,B:1):1,C:1,(D:1,zz:1):1);", pool[i]}
+			}
 			files := map[string]string{"ref.nw": ref + "\n", "boot.nw": strings.Join(boots, "\n") + "\n"}
 			ds = append(ds, cliDiff{"C10", "support-fbp", []string{"compute", "support", "fbp", "-i", "@/ref.nw", "-b", "@/boot.nw", "--silent"}, files, "FBP(ref, boots, 1)", func() (string, bool) {
 				r := gtMustParse(ref)
@@ -557,6 +561,15 @@ func cliDiffC10(quick bool) []cliDiff {
 	return ds
 }
 
+// cliDiffTipLens: the same tree, every tip branch 0.125 longer.
+func cliDiffTipLens(txt string) string {
+	m := rm.MustParse(txt)
+	for _, tp := range m.Tips() {
+		tp.HasLen, tp.Len = true, tp.Len+0.125
+	}
+	return m.Newick()
+}
+
 func cliDiffC08(quick bool) []cliDiff {
 	var ds []cliDiff
 	pool := cliDiffPool5()
@@ -566,7 +579,8 @@ func cliDiffC08(quick bool) []cliDiff {
 	}
 	for i := 0; i < len(pool); i += step {
 		ref := pool[i]
-		comps := []string{pool[(i+1)%len(pool)], pool[i], pool[(i+7)%len(pool)]}
+		// (the last compared tree is the reference with other tip-branch lengths only)
+		comps := []string{pool[(i+1)%len(pool)], pool[i], pool[(i+7)%len(pool)], cliDiffTipLens(pool[i])}
 		for _, foreign := range []bool{false, true} {
 			if foreign && i%2 == 0 {
 				// a tree on other taxa in the middle of the file: every output mode must fail as the library call does
